@@ -98,7 +98,9 @@ class TranslateNode(Node, TranslatableTag):
 
     def render_to_output(self, context: RenderContext, buffer: TextIO) -> int:
         """Render the node to the output buffer."""
-        if not self.singular_block.block.nodes and not self.plural_block:
+        if not self.singular_block.block.nodes and not (
+            self.plural_block and self.plural_block.block.nodes
+        ):
             # There is no message. The empty string is not a message id, it is
             # where catalogs keep their metadata.
             return 0
@@ -121,7 +123,9 @@ class TranslateNode(Node, TranslatableTag):
         self, context: RenderContext, buffer: TextIO
     ) -> int:
         """Render the node to the output buffer."""
-        if not self.singular_block.block.nodes and not self.plural_block:
+        if not self.singular_block.block.nodes and not (
+            self.plural_block and self.plural_block.block.nodes
+        ):
             # There is no message. The empty string is not a message id, it is
             # where catalogs keep their metadata.
             return 0
